@@ -96,6 +96,19 @@ fn after_close_checks(d: &dyn Drv, f: &mut Findings, tag: &str) {
     if r != Ok(false) {
         f.add("C12", "after-close/insert", format!("{tag}: insert_if_present after close() returned {r:?}"));
     }
+    // an insert that raced close() may have left an entry in the (now invisible) store: no insert variant may
+    // revive, replace or report success on it either - every key the scenarios use is probed
+    for k in 0..12 {
+        let held = before.store.iter().any(|e| e.index == crate::val::Kb::default().pair(k).0);
+        let r = d.try_insert_if_present(k, Tracked::new(u64::MAX - 100 - k, k), 1);
+        if r != Ok(false) {
+            f.add("C12", "after-close/insert", format!("{tag}: insert_if_present({k}) after close() returned {r:?}, expected Ok(false) (entry left in the closed store by a racing insert: {held})"));
+        }
+        let r = d.try_insert(k, Tracked::new(u64::MAX - 200 - k, k), 1, Duration::ZERO);
+        if r != Ok(false) {
+            f.add("C12", "after-close/insert", format!("{tag}: insert({k}) after close() returned {r:?}, expected Ok(false) (entry left in the closed store: {held})"));
+        }
+    }
     for k in 0..12 {
         if d.get(k).is_some() || d.get_mut(k, None).is_some() {
             f.add("C12", "after-close/lookup", format!("{tag}: look-up of key {k} after close() returned a value"));
